@@ -22,6 +22,14 @@ Specs (all JSON):
          build_vbc_components.
   field  {"kind": ..., "c": [c0,c1,c2], "G": 3x3}      u(x) = c + G x   (2-d: upper-left 2x2)
 
+  reuse  null | {"edits": subset of ["bc","geometry","stiffness"], "bc0": bc spec, "lame0": lame spec,
+         "stretch": [sx,sy,sz], "back": bool, "same_discr": bool, "same_data": bool}
+         Re-discretisation after editing the inputs IN PLACE (see discretize_sequence): the final state
+         is the case proper (spec["bc"], spec["lame"], the grid of spec["grid"]); the other state uses
+         bc0 / lame0 / node coordinates stretched by diag(stretch) for the edited inputs.  back=False:
+         other -> final;  back=True: final -> other -> final.  All assertions are made on the last
+         discretisation.
+
 Vector quantities on faces / cells are flattened face-wise ("F" order): index d + nd * f.
 """
 from __future__ import annotations
@@ -97,6 +105,28 @@ def displacement_spec(draw, kinds=("general", "general", "symmetric", "rotation"
         a = draw(_f(-2, 2))
         G = [[a if i == j else 0.0 for j in range(3)] for i in range(3)]
     return {"kind": kind, "c": c, "G": G}
+
+
+@st.composite
+def reuse_spec(draw, bc_modes):
+    """null (single discretisation, one case in four) or a re-discretisation scenario."""
+    if draw(st.integers(0, 3)) == 0:
+        return None
+    edits = draw(st.sampled_from([["bc"], ["bc"], ["bc"], ["geometry"], ["stiffness"], ["bc", "stiffness"],
+                                  ["bc", "geometry"], ["bc", "geometry", "stiffness"]]))
+    return {"edits": edits, "bc0": draw(vbc_spec(modes=bc_modes)), "lame0": draw(lame_spec()),
+            "stretch": [draw(_f(0.7, 1.4)) for _ in range(3)], "back": draw(st.booleans()),
+            "same_discr": draw(st.booleans()), "same_data": draw(st.booleans())}
+
+
+def reuse_labels(reuse):
+    if not reuse:
+        return ["reuse-none"]
+    labs = ["reuse-" + e + "-edited" for e in reuse["edits"]]
+    labs.append("reuse-back" if reuse["back"] else "reuse-forward")
+    labs.append("reuse-same-discr" if reuse["same_discr"] else "reuse-new-discr")
+    labs.append("reuse-same-data" if reuse["same_data"] else "reuse-new-data")
+    return labs
 
 
 # --------------------------------------------------------------------------- grid helpers
@@ -361,6 +391,79 @@ def discretize_tpsa(g, lame, bc):
             pp.DISCRETIZATION_MATRICES: {KW: {}}}
     pp.Tpsa(KW).discretize(g, data)
     return data[pp.DISCRETIZATION_MATRICES][KW]
+
+
+def as_component_types(mask_or_types, nd):
+    a = np.asarray(mask_or_types, dtype=bool)
+    return np.tile(a, (nd, 1)) if a.ndim == 1 else a
+
+
+def discretize_sequence(g, kind, states, same_discr=True, same_data=True, alphas=None):
+    """Discretise with pp.Mpsa / pp.Biot / pp.Tpsa (kind) for states[0]; then, for every further
+    state, edit the inputs IN PLACE - the boundary types through is_dir / is_neu of the SAME
+    BoundaryConditionVectorial object, the Lame parameters through mu / lmbda / values of the SAME
+    FourthOrderTensor, the node coordinates of the SAME grid followed by compute_geometry() - and
+    discretise again, with the same discretisation object (same_discr) or a new one, storing into
+    the same data dictionary (same_data) or a new one holding the same parameter objects.
+    state = {"dir": (nd,nf) bool, "neu": (nd,nf) bool, "lame": {...}, "nodes": (3,nn) array}.
+    Returns the matrices of the last discretisation.  The grid is left in the last state."""
+    import porepy as pp
+
+    nd = g.dim
+    cls = {"mpsa": pp.Mpsa, "biot": pp.Biot, "tpsa": pp.Tpsa}[kind]
+
+    def new_data(bc, C):
+        params = {"fourth_order_tensor": C, "bc": bc}
+        if kind == "biot":
+            params["scalar_vector_mappings"] = alphas
+        if kind == "tpsa":  # as in the class docstring / test_tpsa.py
+            return {pp.PARAMETERS: {KW: params}, pp.DISCRETIZATION_MATRICES: {KW: {}}}
+        return pp.initialize_data({}, KW, params)
+
+    bc = C = data = discr = None
+    for i, stt in enumerate(states):
+        if not np.array_equal(g.nodes, stt["nodes"]):
+            g.nodes[:] = stt["nodes"]
+            g.compute_geometry()
+        if i == 0:
+            bc = pp.BoundaryConditionVectorial(g)
+            C = stiffness(g, stt["lame"])
+        else:
+            Cn = stiffness(g, stt["lame"])
+            C.mu[:] = Cn.mu
+            C.lmbda[:] = Cn.lmbda
+            C.values[:] = Cn.values
+        bc.is_dir[:] = stt["dir"]
+        bc.is_neu[:] = stt["neu"]
+        bc.is_rob[:] = False
+        if i == 0 or not same_data:
+            data = new_data(bc, C)
+        if i == 0 or not same_discr:
+            discr = cls(KW)
+        discr.discretize(g, data)
+    return data[pp.DISCRETIZATION_MATRICES][KW]
+
+
+def reuse_states(g, reuse, final_types, final_lame, other_types_fn):
+    """List of states for discretize_sequence.  other_types_fn(bc0 spec) -> (dir, neu) builds the
+    types of the other state on the *final* geometry (called before any node is moved)."""
+    nd = g.dim
+    fin = {"dir": as_component_types(final_types[0], nd), "neu": as_component_types(final_types[1], nd),
+           "lame": final_lame, "nodes": g.nodes.copy()}
+    if not reuse:
+        return [fin]
+    oth = dict(fin)
+    if "bc" in reuse["edits"]:
+        d, n = other_types_fn(reuse["bc0"])
+        oth["dir"], oth["neu"] = as_component_types(d, nd), as_component_types(n, nd)
+    if "stiffness" in reuse["edits"]:
+        oth["lame"] = reuse["lame0"]
+    if "geometry" in reuse["edits"]:
+        sxyz = np.asarray(reuse["stretch"], dtype=float).copy()
+        if nd == 2:
+            sxyz[2] = 1.0
+        oth["nodes"] = g.nodes * sxyz[:, None]
+    return [fin, oth, fin] if reuse["back"] else [oth, fin]
 
 
 def tpsa_block_system(g, M, lame):
